@@ -147,6 +147,11 @@ var (
 	arr  = [...]int{2: 1, 2}
 	fp   = (*Server).Run
 )
+
+// channel types that print without parentheses of their own
+var streams <-chan <-chan int
+
+func fanIn(in <-chan <-chan string, out chan<- <-chan string, both chan (<-chan int)) {}
 """
 
 
@@ -238,6 +243,15 @@ def main():
                 ck.violation("a patch whose '+' side repeats its '-' side changed the syntax of the file (%s)" % name,
                              {"case": name, "patch": pair[1].decode(), "file": pair[3].decode("utf-8", "replace")[:4000],
                               "gopatch_output": vlib.unb64(r["out"]).decode("utf-8", "replace")[:6000] if r.get("out") else None})
+                continue
+            # the comparison above is blind to parentheses (the printer adds the ones precedence needs inside a rewritten
+            # fragment); an identity patch adds and removes none anywhere
+            outb = vlib.unb64(r["out"]) if r.get("out") else None
+            if outb is not None and name.endswith("x zoo") and (outb.count(b"(") != pair[3].count(b"(") or outb.count(b"<-chan") != pair[3].count(b"<-chan")):
+                bad = [l for l in outb.decode("utf-8", "replace").split("\n") if l not in pair[3].decode().split("\n")][:5]
+                ck.violation("a patch whose '+' side repeats its '-' side added or removed parentheses (%s): %s" % (name, bad),
+                             {"case": name, "patch": pair[1].decode(), "file": pair[3].decode("utf-8", "replace")[:4000],
+                              "gopatch_output": outb.decode("utf-8", "replace")[:6000]})
                 continue
         enginecheck.report(ck, name, (pair[0], pair[1], pair[2], pair[3][:3000]), o, "frame", {"must_parse": True} if name in id_names else None)
     ck.notes["rewritten_sites_total"] = nsites
